@@ -6,6 +6,8 @@ package c03
 import (
 	"context"
 	"crypto/x509"
+	"crypto/x509/pkix"
+	"encoding/asn1"
 	"errors"
 	"fmt"
 	"os"
@@ -90,7 +92,18 @@ var (
 	unrelated *pki.Cert
 	tsaRoot   *pki.Cert
 	tsa       *pki.TSA
+	// re-issued CA certificates: the subject and the key of the chain's root / intermediate, another
+	// serial number and validity - other certificates, not "identical to" the ones of the chain
+	reRoot, reInter *pki.Cert
 )
+
+func rdnsOf(c *x509.Certificate) pkix.RDNSequence {
+	var seq pkix.RDNSequence
+	if _, err := asn1.Unmarshal(c.RawSubject, &seq); err != nil {
+		panic(err)
+	}
+	return seq
+}
 
 func setup() {
 	once.Do(func() {
@@ -100,6 +113,8 @@ func setup() {
 		tsaRoot = pki.Mint(pki.Spec{Subject: pki.DefaultLeafSubject("c03 tsa root"), NotBefore: now.Add(-48 * time.Hour), NotAfter: now.Add(48 * time.Hour), IsCA: true, PathLen: 0}, nil)
 		leaf := pki.Mint(pki.Spec{Subject: pki.DefaultLeafSubject("c03 tsa"), NotBefore: now.Add(-48 * time.Hour), NotAfter: now.Add(48 * time.Hour), CritTSEKU: true}, tsaRoot)
 		tsa = &pki.TSA{Leaf: leaf}
+		reRoot = pki.Mint(pki.Spec{RawSubject: rdnsOf(chain.Certs[2].Cert), NotBefore: now.Add(-12 * time.Hour), NotAfter: now.Add(36 * time.Hour), IsCA: true, PathLen: 1, CRLSign: true, Key: chain.Certs[2].Key}, nil)
+		reInter = pki.Mint(pki.Spec{RawSubject: rdnsOf(chain.Certs[1].Cert), NotBefore: now.Add(-12 * time.Hour), NotAfter: now.Add(36 * time.Hour), IsCA: true, PathLen: 0, CRLSign: true, Key: chain.Certs[1].Key}, chain.Certs[2])
 	})
 }
 
@@ -117,6 +132,10 @@ func certsFor(content string) []*x509.Certificate {
 			out = append(out, unrelated.Cert)
 		case 't':
 			out = append(out, tsaRoot.Cert)
+		case 'R':
+			out = append(out, reRoot.Cert)
+		case 'I':
+			out = append(out, reInter.Cert)
 		}
 	}
 	return out
@@ -373,6 +392,10 @@ func record(rec *stats.Recorder, c Case, pass bool) {
 	for ref, content := range c.Stores {
 		typ, _, _ := strings.Cut(ref, ":")
 		shares := strings.ContainsAny(content, "ril") && !strings.Contains(content, "E")
+		if listed[ref] && typ == req && strings.ContainsAny(content, "RI") && !strings.ContainsAny(content, "ril") {
+			cl = append(cl, "listed-store-holds-a-reissued-ca-certificate-only")
+			nt = true
+		}
 		switch {
 		case shares && listed[ref] && typ != req:
 			cl = append(cl, "decoy-wrong-type")
@@ -484,7 +507,7 @@ func dedup(in []string) []string {
 }
 
 // "a." is a store name of its own (file-name characters only), not another spelling of "a"
-var universe = []string{"ca:a", "ca:b", "signingAuthority:a", "signingAuthority:b", "tsa:a", "tsa:b", "ca:a.", "signingAuthority:a."}
+var universe = []string{"ca:a", "ca:b", "signingAuthority:a", "signingAuthority:b", "tsa:a", "tsa:b", "ca:a.", "signingAuthority:a.", "ca:A", "signingAuthority:A"} // "A": a name that differs from another store's name by letter case only
 var unlistedStores = []string{"ca:unlisted", "signingAuthority:unlisted", "tsa:unlisted"}
 
 func TestC03_Placements(t *testing.T) {
@@ -493,9 +516,9 @@ func TestC03_Placements(t *testing.T) {
 		c := Case{Stores: map[string]string{}, Scheme: rp.Pick(rt, "scheme", "x509", "sa"), Format: rp.Pick(rt, "format", envb.MTJWS, envb.MTCOSE),
 			Level: kit.DrawLevel(rt), Token: rapid.IntRange(0, 3).Draw(rt, "token") == 0}
 		c.RealStore = rapid.IntRange(0, 5).Draw(rt, "realStore") == 0
-		contents := []string{"", "E", "u", "r", "i", "l", "ur", "ru", "il", "uE", "rE"}
+		contents := []string{"", "E", "u", "r", "i", "l", "ur", "ru", "il", "uE", "rE", "R", "I", "RI", "uR"}
 		if c.RealStore { // the directory store only loads CA / self-signed certificates: a leaf makes a store unloadable
-			contents = []string{"", "E", "u", "r", "i", "ur", "ru", "iu", "uE", "rE", "S", "S", "ul", "rl", "il", "uD", "uD", "0", "0"}
+			contents = []string{"", "E", "u", "r", "i", "ur", "ru", "iu", "uE", "rE", "S", "S", "ul", "rl", "il", "uD", "uD", "0", "0", "R", "I", "RI", "uR"}
 		}
 		for _, ref := range append(append([]string{}, universe...), unlistedStores...) {
 			content := rp.Pick(rt, "content:"+ref, contents...)
